@@ -36,12 +36,19 @@ func main() {
 	res := lib.NewResult("C10", f)
 	agg := newAgg(res)
 
+	// long-stall scenarios (each a little over 5 s of wall-clock): in worker processes of their own, concurrently with
+	// the two phases below
+	stalls := stallScenarios(f)
+	stallDone := make(chan []Outcome, 1)
+	go func() { stallDone <- runAll(f, stalls, len(stalls)) }()
+
 	// phase 1: fixed small scenarios (smallest first: the first failing input per signature is the replay)
 	// + the K4 schedule tie cases
 	first := fixedScenarios(f)
 	first = append(first, schedScenarios(f)...)
 	first = append(first, raceScenarios(f)...)
 	first = append(first, adapterScenarios(boundMs(f))...)
+	first = append(first, singleScenarios(boundMs(f))...)
 	first = append(first, pipeScenarios(f)...)
 	outs := runAll(f, first, f.N(4, 8))
 	points := map[string]int{}
@@ -60,13 +67,16 @@ func main() {
 	for i, o := range outs {
 		agg.add(second[i], o)
 	}
+	for i, o := range <-stallDone {
+		agg.add(stalls[i], o)
+	}
 	var ps []string
 	for p, n := range points {
 		ps = append(ps, fmt.Sprintf("%s:%d", p, n))
 	}
 	sort.Strings(ps)
 	res.Extra["yield_points_reached"] = ps
-	res.Extra["scenarios"] = len(first) + len(second)
+	res.Extra["scenarios"] = len(first) + len(second) + len(stalls)
 	if n := skipped.Load(); n > 0 {
 		res.Notes = append(res.Notes, fmt.Sprintf("stopped early after %d failing scenarios: %d scenarios not run", stopEarly.Load(), n))
 	}
@@ -87,6 +97,7 @@ func newAgg(res *lib.Result) *agg {
 	a := &agg{res: res, mons: map[string]*lib.Monitor{}, ties: map[string]*lib.Tie{}}
 	a.ties[tieSched] = res.Tie(tieSched, "K4", tieSchedRule)
 	a.ties[tiePipe] = res.Tie(tiePipe, "K4", tiePipeRule)
+	a.ties[tieLate] = res.Tie(tieLate, "K4", tieLateRule)
 	a.mons[monShutdown] = res.Monitor(monShutdown,
 		"real pkg/resource + minibus under scenarios (0-8 subscribers, backpressure on/off, updates-only, PullID; consumers drain / stop after k / never receive; cancel before subscribe, at the n-th occurrence of every yield point, at random instants, at the end; 0-3 writers): after the cancel the consumer sees close within the bound; writers return once every non-receiving subscriber is cancelled; a write issued after a subscription ended returns; PullID closes after its item is removed (collections with an id interceptor lower/upper/trim: subscriber and writers spell the ids differently, the oracle keys everything by the intercepted id); trait-level subscriptions (Pull adapters of 10 trait models; the ModelServer gRPC Pull handlers of the same 10 traits on a stream whose Send starts failing at message 1, 2 or 3, or never): drain or stop receiving, writes, then cancel, also with an already-cancelled context; the goroutine census (runtime.Stack filtered to pkg/resource + internal/minibus + pkg/trait/* frames) returns to empty; no panic (recovered or process-killing). non-trivial = at least one subscriber; distinct = distinct check x subscription class x consumer/cancel mode")
 	a.mons[monDelivery] = res.Monitor(monDelivery,
@@ -122,6 +133,9 @@ func (a *agg) add(sc Scenario, o Outcome) {
 		} else if strings.HasPrefix(k, "pipe:") {
 			dst = a.ties[tiePipe].Distribution
 			k = strings.TrimPrefix(k, "pipe:")
+		} else if strings.HasPrefix(k, "late:") {
+			dst = a.ties[tieLate].Distribution
+			k = strings.TrimPrefix(k, "late:")
 		}
 		dst[k] += n
 	}
@@ -156,6 +170,7 @@ func worker(f lib.Flags) {
 			fmt.Fprintf(out, "B %d\n", req.Idx)
 			out.Flush()
 			var o Outcome
+			t0 := time.Now()
 			switch req.Sc.Mode {
 			case "pipe":
 				if drv == nil {
@@ -199,8 +214,22 @@ func worker(f lib.Flags) {
 				o = runRace(req.Sc)
 			case "adapter":
 				o = runAdapter(req.Sc)
+			case "single":
+				if drv == nil {
+					d, derr := lib.StartDriver(f.Driver)
+					if derr != nil {
+						o.Ties = append(o.Ties, TieRec{Tie: tieLate, Err: "driver: " + derr.Error()})
+					}
+					drv = d
+				}
+				o2 := runSingle(req.Sc, drv)
+				o2.Ties = append(o.Ties, o2.Ties...)
+				o = o2
 			default:
 				o = runStress(req.Sc)
+			}
+			if d := time.Since(t0); d > 300*time.Millisecond && req.Sc.StallMs == 0 {
+				o.count("slow>300ms:" + req.Sc.Mode + "/" + req.Sc.Class)
 			}
 			b, _ := json.Marshal(o)
 			fmt.Fprintf(out, "E %d %s\n", req.Idx, b)
@@ -341,7 +370,7 @@ func replay(f lib.Flags) int {
 	}
 	b, _ := json.Marshal(rp.Input)
 	var sc Scenario
-	if rp.Input == nil || json.Unmarshal(b, &sc) != nil || sc.Res == "" && sc.Sched == nil && sc.Race == nil && sc.Pipe == nil && sc.Adapter == nil {
+	if rp.Input == nil || json.Unmarshal(b, &sc) != nil || sc.Res == "" && sc.Sched == nil && sc.Race == nil && sc.Pipe == nil && sc.Adapter == nil && sc.Single == nil {
 		fmt.Println("replay: no concrete input in file (", rp.Kind, rp.Broken, ")")
 		return 2
 	}
